@@ -421,7 +421,18 @@ alternatives:
 		case *ExprIdentifier:
 			bindings := make(map[string]*Cell)
 			ident := e.lexer.GetString(&ex.token)
-			bindings[ident] = value
+			// bind like an assignment does: scalars are copied, arrays and
+			// objects shared, so that assigning to the name in the case body
+			// does not write through to the matched value
+			bound := value
+			if value.Value.Tag != ValueFn && value.Value.Tag != ValueNativeFn {
+				// (functions cannot be copied, they are bound as they are)
+				bound = NewCell(NewValue(nil))
+				if _, err := copyValue(value, bound); err != nil {
+					return false, nil, e.error(expr.Token(), err.Error())
+				}
+			}
+			bindings[ident] = bound
 			return true, bindings, nil
 		default:
 			return false, nil, e.error(expr.Token(), fmt.Sprintf("%s not supported in match expressions", expr))
